@@ -65,6 +65,17 @@ Lemma r1_cases : forall (b1 b2 : bool) (c : nat),
   (if b1 then Some c else if b2 then Some c else None) = None.
 Proof. intros [] [] c; auto. Qed.
 
+(* the client never reports a derived (bundled) package version *)
+Definition no_derived (c_matching : vkey -> res (list version)) : Prop :=
+  forall k vs v, c_matching k = Ok vs -> In v vs -> attr_get K_DerivedFrom (v_attr v) = None.
+
+Lemma no_derived_get_bundled : forall c_matching, no_derived c_matching -> forall d, get_bundled c_matching d = None.
+Proof.
+  intros cm H d. unfold get_bundled. destruct (negb (is_regular (r_type d))); auto.
+  destruct (cm (r_key d)) as [vs| | |] eqn:E; auto. destruct vs as [|v [|w vs]]; auto.
+  rewrite (H _ _ v E); [reflexivity | left; reflexivity].
+Qed.
+
 Section NoBundles.
   Variable c_version : vkey -> res version.
   Variable c_requirements : vkey -> res (list req).
